@@ -580,6 +580,15 @@ func (k *Kernel) addProposedHeader(ctx context.Context, s *kState, ph tmconsensu
 
 			mergeRes := target.MergeSparse(laterSparseCommit)
 			mergedAny = mergedAny || mergeRes.IncreasedSignatures
+			if mergeRes.IncreasedSignatures {
+				// As with any other change to a proof, bump the per-block version
+				// so that an add request prepared against the earlier proof conflicts
+				// instead of overwriting the signatures we just merged.
+				if backfillVRV.PrecommitBlockVersions == nil {
+					backfillVRV.PrecommitBlockVersions = make(map[string]uint32)
+				}
+				backfillVRV.PrecommitBlockVersions[blockHash]++
+			}
 		}
 
 		if mergedAny {
@@ -2180,6 +2189,15 @@ func (k *Kernel) handleReplayedHeader(
 	// Store the updated proofs back into the long-lived local set.
 	for hash, proof := range tempProofs {
 		s.Voting.PrecommitProofs[hash] = proof
+
+		// Requests to add precommits are prepared outside the kernel against a snapshot,
+		// and are applied only if the per-block version is unchanged.
+		// We just changed the proof, so a request prepared against the earlier proof
+		// must now conflict instead of overwriting these signatures.
+		if s.Voting.PrecommitBlockVersions == nil {
+			s.Voting.PrecommitBlockVersions = make(map[string]uint32)
+		}
+		s.Voting.PrecommitBlockVersions[hash]++
 	}
 
 	// Since we are in a replay, we clearly had out-of-date precommit power.
